@@ -4,6 +4,8 @@ import PdshVerif.Exec.EndToEnd
 import PdshVerif.Exec.Ssh
 import PdshVerif.Exec.Spec
 import PdshVerif.Exec.XrcmdSpec
+import PdshVerif.Exec.XrcmdErr
+import PdshVerif.Gen.Dsh
 import PdshVerif.Opt.Rcmd
 import PdshVerif.Opt.RcmdSpec
 import PdshVerif.Opt.RcmdUser
@@ -323,6 +325,18 @@ def stepModel (v : Variant) (re : Bool) (sshEsc : Bool) (line : String) : String
   | "reg" :: rest => regModel re rest
   | "regcli" :: rest => regCli rest
   | "xr" :: rest => xrModel rest
+  | "xe" :: bs :: rest =>
+    -- xe REPLYHEX [old]: the text xrcmd hands to err() when the peer refuses (Exec/XrcmdErr.lean, buffer of
+    -- Gen.LINEBUFSIZE bytes); `old` = the copy loop before e2d5199
+    match (if bs = "-" then some [] else Hex.decodeToChars bs) with
+    | some (c :: tail) =>
+      if c = nul then "err ~"
+      else
+        match XrcmdErr.errText (!rest.contains "old") Gen.LINEBUFSIZE c tail with
+        | some t => "err " ++ hx (t.takeWhile (· ≠ nul))
+        | none => "ub"
+    | some [] => "err ~"
+    | none => "bad-op"
   | _ => "bad-op"
 
 def stepSpec (line : String) : String :=
